@@ -479,6 +479,7 @@ class H2Origin(_Endpoint):
         end_on_headers = not chunks and not trailers and rst is None and not r.get("end_with_empty_data")
         if not self.send_guard(self.conn.send_headers, sid, head, end_stream=end_on_headers):
             return
+        rec["resp_headers_sent"] = True
         self.note("resp_headers", rec["order"], len(head), end_on_headers)
         self.flush()
         if end_on_headers:
@@ -761,6 +762,27 @@ class H2Client(_Endpoint):
             left = deadline - self.now()
             if left <= 0 or self.dead():
                 return
+            await self.tls.wait(left)
+
+    async def wait_done(self, idxs, timeout: float = 20.0) -> bool:
+        """Pump until the given streams have an outcome, the connection died, or nothing happened for `timeout` s."""
+        deadline = self.now() + timeout
+        seen = self.tls.plain_in
+        while True:
+            self.pump()
+            if self.ack_mode == "lazy" and self._unacked:
+                self.release_acks()
+            if all(self.done(i) for i in idxs):
+                return True
+            if self.dead():
+                return False
+            if self.tls.plain_in != seen:
+                seen = self.tls.plain_in
+                deadline = self.now() + timeout
+            left = deadline - self.now()
+            if left <= 0:
+                self.note("wait_timeout")
+                return False
             await self.tls.wait(left)
 
     async def finish(self, want_idx=None):
